@@ -9,6 +9,7 @@
     oracle = LockModel.lk_verdict evaluated on what the C code did;
  4. stress: real threads on the real API (harness/h_lock_stress.c, ThreadSanitizer build) with a
     watchdog; a data race or a stuck thread is a concrete failing schedule."""
+import hashlib
 import json
 import os
 import re
@@ -50,7 +51,19 @@ def install_gen(text):
 
     def patched():
         orig()
-        write_if_changed(os.path.join(vlib.COQ, GEN_REL), text)
+        path = os.path.join(vlib.COQ, GEN_REL)
+        write_if_changed(path, text)
+        # the compiled file must belong to exactly this text: in VERIF_REPO mode the tree is
+        # re-synced with preserved mtimes while Gen/*.vo survives, so make cannot tell
+        stamp = os.path.join(vlib.BUILD, "c13_gen.sha")
+        h = hashlib.sha256(text.encode()).hexdigest()
+        if not (os.path.exists(stamp) and open(stamp).read() == h):
+            for ext in (".vo", ".vos", ".vok", ".glob"):
+                q = path[:-2] + ext
+                if os.path.exists(q):
+                    os.remove(q)
+            with open(stamp, "w") as f:
+                f.write(h)
     vlib.coq_makefile = patched
 
 
@@ -178,7 +191,8 @@ def main(run):
         pred = vlib.run_lines(model, [], ["lkv gen " + ln[3:] for ln in lines[:ncorp]])[1][:ncorp]
         detail = "\n".join(diffs) + "\n\nmodel under the regenerated configuration, corpus:\n" + \
             "\n".join("%s -> %s" % (a, b) for a, b in zip(lines, pred)) + "\n\n" + \
-            json.dumps({"api_not_ok": diag["api"]["not_ok"], "callbacks_not_wrapped":
+            json.dumps({"api_not_ok": [x for x in diag["api"]["not_ok"] if x["verdict"] != "exception"],
+                        "callbacks_not_wrapped":
                         [s for s in diag["callbacks"]["not_wrapped"] if s["verdict"].startswith("UNWRAPPED")],
                         "callback_scan": {k: diag["callbacks"][k] for k in ("blind", "missing_types")}},
                        indent=1)
